@@ -113,6 +113,8 @@ def _steps(fn, which):
             out.append("cancelSpa")
         elif _has_call(st, "cancel_key_tasks", "FACADE"):
             out.append("cancelFacade")
+        elif _has_call(st, "cancel_key_tasks", "LOC"):
+            out.append("cancelLoc")
         elif _has_call(st, "_protocol.disconnect"):
             out.append("dropProtocol")
         elif _has_call(st, "_transport.close") or _has_call(st, "transport.close"):
@@ -128,6 +130,18 @@ def _steps(fn, which):
         else:
             out.append("other")
     return out
+
+
+def _finally_steps(fn, which):
+    """the step list of the (outermost) `finally` block of fn"""
+    class _F:
+        pass
+    for n in ast.walk(fn):
+        if isinstance(n, ast.Try) and n.finalbody:
+            f = _F()
+            f.body = n.finalbody
+            return _steps(f, which)
+    return []
 
 
 def gen_crash_points():
@@ -189,11 +203,13 @@ def gen_crash_points():
            "structure TeardownFacts where\n" + "\n".join(f"  {k} : Bool" for k in facts) + "\nderiving Repr, DecidableEq\n",
            "def teardownFacts : TeardownFacts := {\n" + ",\n".join(f"  {k} := {'true' if v else 'false'}" for k, v in facts.items()) + " }\n",
            "/-- one statement of a teardown procedure (async_reset / GeckoAsyncSpa.disconnect / GeckoAsyncFacade.disconnect), classified -/\n"
-           "inductive TStep | awaitHandler | awaitOther | callFacadeDisconnect | callSpaDisconnect | cancelSpa | cancelFacade | dropProtocol\n"
+           "inductive TStep | awaitHandler | awaitOther | callFacadeDisconnect | callSpaDisconnect | cancelSpa | cancelFacade | cancelLoc | dropProtocol\n"
            "  | closeTransport | unwatch | clearSpa | clearFacade | setIdle | other\nderiving Repr, DecidableEq\n",
            "def resetSteps : List TStep := [" + ", ".join("." + x for x in _steps(reset, "reset")) + "]",
            "def spaDisconnectSteps : List TStep := [" + ", ".join("." + x for x in _steps(disconnect, "spa")) + "]",
            "def facadeDisconnectSteps : List TStep := [" + ", ".join("." + x for x in _steps(fdis, "facade")) + "]\n",
+           "/-- the `finally` block of GeckoAsyncLocator.discover (runs when discovery returns AND when it is cancelled) -/\n"
+           "def discoverFinallySteps : List TStep := [" + ", ".join("." + x for x in _finally_steps(discover, "discover")) + "]\n",
            "end GeckoModel.Generated\n"]
     return "\n".join(out)
 
